@@ -438,3 +438,14 @@ fn battiato_reindex(num_colors: usize, edges: Vec<(usize, usize)>) -> Vec<usize>
     // Return the completed chain
     chains.swap_remove(0)
 }
+
+/// Verification hooks: the two steps shared by the co-occurrence sorters, callable on their own
+#[cfg(feature = "verif")]
+pub fn verif_apply_palette_reorder(png: &PngImage, remapping: &[usize]) -> Option<PngImage> {
+    apply_palette_reorder(png, remapping)
+}
+
+#[cfg(feature = "verif")]
+pub fn verif_apply_most_popular_color(png: &PngImage, remapping: &mut [usize]) {
+    apply_most_popular_color(png, remapping);
+}
